@@ -403,7 +403,7 @@ func runC16(a *Args) error {
 		"no symbolic links inside the sandbox for Get/Uninstall/Install (List is exercised with symlinks); a symlinked plugin directory is followed by the OS and is outside the model",
 		"what a plugin executable prints is an input of the model (node field m); versions are 1.0.<v>",
 		"names that resolve to an existing path outside the sandbox (/, /tmp) are only run through SysPath/path.Join, not through the manager",
-		"Verify: attribute values are ASCII; blank = Go's strings.TrimSpace on ASCII white space",
+		"Verify: the attribute value is what notation-core-go reads back from the signed envelope (invalid UTF-8 does not survive JSON/CBOR); blank = strings.TrimSpace (Unicode white space, modelled byte-wise on UTF-8)",
 		"Install: file names are valid UTF-8 (the metadata document must be able to repeat the name)",
 	}
 	ctx := context.Background()
@@ -544,6 +544,11 @@ func runC16(a *Args) error {
 		return mgrs[k], rr
 	}
 	verifiers := map[mgrKey]notation.Verifier{}
+	type xKey struct {
+		d, v            int
+		hasPM, trusted bool
+	}
+	verifiersX := map[xKey]notation.Verifier{}
 	// outside-the-sandbox check after an operation
 	checkOutside := func(my int64, wd *world, rr, name string, c *c16Case) {
 		for _, t := range wd.targets(rr, name) {
@@ -703,6 +708,77 @@ func runC16(a *Args) error {
 			}
 		}
 		id++
+		// OVerifyX: the attribute in every shape the verifier distinguishes before it calls the
+		// manager (not critical, not a string, a string), a malformed minimum-version attribute,
+		// a verifier without plugin manager, and a signing certificate that is NOT trusted by
+		// the policy (the lookup happens before authenticity is evaluated). The shape is read
+		// back from notation-core-go, not assumed from construction.
+		if my := id; doVerify && w.Want(my) && safe {
+			format := MtJWS
+			if (my/3)%2 == 1 {
+				format = MtCOSE
+			}
+			variant := int(my % 6)
+			attrs := []signature.Attribute{{Key: "io.cncf.notary.verificationPlugin", Critical: true, Value: name}}
+			minvBad, hasPM, trusted := false, true, true
+			switch variant {
+			case 0, 5:
+				trusted = false
+			case 1:
+				attrs[0].Critical = false
+			case 2:
+				attrs[0].Value = int64(len(name) + 7)
+			case 3:
+				minvBad = true
+				attrs = append(attrs, signature.Attribute{Key: "io.cncf.notary.verificationPluginMinVersion", Critical: true, Value: "not.a.version"})
+			case 4:
+				hasPM = false
+			}
+			if env, shape, seen, ok := vf.envelopeX(format, attrs); ok && (shape != "VStr" && shape != "VNotCritical" || wd.safe(rr, seen)) {
+				var attrT string
+				switch shape {
+				case "VStr", "VNotCritical":
+					attrT = CApp(shape, CStr(seen))
+				default:
+					attrT = shape
+				}
+				c := &c16Case{Op: "verify-x", Name: strconv.Quote(seen), Depth: d, Root: rootSpell(wd, v), Format: fmt.Sprintf("%s attr=%s minvBad=%v pm=%v trusted=%v", format, shape, minvBad, hasPM, trusted)}
+				var errc string
+				o := runFs(wd, nil, func() {
+					key := xKey{d, v, hasPM, trusted}
+					vr := verifiersX[key]
+					if vr == nil {
+						pol := vf.policy
+						if !trusted {
+							pol = vf.policyU
+						}
+						var pm plugin.Manager
+						if hasPM {
+							pm = mgr
+						}
+						var err error
+						vr, err = verifier.New(pol, vf.store, pm)
+						if err != nil {
+							panic(fmt.Sprintf("c16: verifier: %v", err))
+						}
+						verifiersX[key] = vr
+					}
+					cctx, cancel := context.WithTimeout(ctx, 30*time.Second)
+					defer cancel()
+					_, err := vr.Verify(cctx, vf.desc, env, notation.VerifierVerifyOptions{ArtifactReference: TestRef, SignatureMediaType: format})
+					errc = verifyClass(err)
+					if err != nil {
+						c.ErrText = Short(err.Error(), 240)
+					}
+				})
+				if shape == "VStr" {
+					checkOutside(my, wd, rr, seen, c)
+				}
+				emit(my, c, wd, wname, rname, nil, CApp("OVerifyX", attrT, CBool(minvBad), CBool(hasPM), CBool(trusted)), errc, "MNone", o, nil, true)
+				w.Count("verify-x", fmt.Sprintf("%s minvBad=%v pm=%v trusted=%v", shape, minvBad, hasPM, trusted))
+			}
+		}
+		id++
 	}
 
 	vf := newVerifyKit()
@@ -739,7 +815,10 @@ func runC16(a *Args) error {
 		"notation-", "notation-good", "a:b", "C:", "C:\\x", "a*b", "a?b", "%2e%2e", "..%2f", "%2e%2e%2fvictim", "..%2fvictim", "..%5cvictim", "g\xc3\xa9", "\xef\xbc\x8e\xef\xbc\x8e", "..\xe2\x88\x95victim",
 		"\xe2\x80\xa6", "\xff", "..\xff", "good\r", "\x7f", "con", "nul", "good.exe", "GOOD", "Good",
 		strings.Repeat("a", 255), strings.Repeat("a", 256), strings.Repeat("a", 300), "../" + strings.Repeat("a", 300), strings.Repeat("a", 300) + "/..", strings.Repeat("a", 300) + "/../good",
-		strings.Repeat("../", 40) + "victim", strings.Repeat("a/", 20) + "b", strings.Repeat("/", 50), strings.Repeat("good/../", 10) + "good"} {
+		strings.Repeat("../", 40) + "victim", strings.Repeat("a/", 20) + "b", strings.Repeat("/", 50), strings.Repeat("good/../", 10) + "good",
+		// Unicode white space (strings.TrimSpace of the attribute value) and look-alikes that are not
+		"\u00a0", "\u0085", "\u1680", "\u2000", "\u2003", "\u200a", "\u2028", "\u2029", "\u202f", "\u205f", "\u3000", " \u00a0\t\u3000", "\u00a0good", "good\u00a0", "\u00a0..", "../\u2003",
+		"\u200b", "\u180e", "\ufeff", "\u2060", "\u00a0\u200b", "\xc2", "\xc2\x20", "\xe2\x80", "\xe2\x80\x20", "\xe3\x80", "\xc2\xa1", "\xe2\x80\x8b", "\xe1\x9a\x81", "\x85", "\xa0", "\u00a0\xa0"} {
 		add(n)
 	}
 	// names derived from the installed plugins by one edit each (padding, case, separators,
@@ -785,7 +864,7 @@ func runC16(a *Args) error {
 		i, n := i, n
 		fixed := i < nFixed
 		derived := i >= nDerivedFrom && i < nDerivedTo
-		doVerify := asciiOnly(n) && len(n) < 400 && (derived || fixed && i%2 == 0 || !fixed && i%6 == 0 || thorough && fixed)
+		doVerify := len(n) < 400 && (derived || fixed && (i%2 == 0 || !asciiOnly(n)) || !fixed && i%6 == 0 || thorough && fixed)
 		if thorough && fixed {
 			for d := 1; d <= 4; d++ {
 				d := d
@@ -1350,6 +1429,60 @@ type verifyKit struct {
 	store  *MockStore
 	desc   ocispec.Descriptor
 	policy *trustpolicy.OCIDocument
+	policyU *trustpolicy.OCIDocument // the signing chain's root is not in its trust store
+}
+
+// verifyClass canonicalises the error of an end-to-end verification with respect to the
+// plugin lookup: EEmpty / EInvalid / ENotExist / EOther = it stopped at or before the lookup
+// for that reason; ENone = it went past the lookup (whatever happened later).
+func verifyClass(err error) string {
+	if err == nil {
+		return "ENone"
+	}
+	msg := err.Error()
+	switch {
+	case strings.Contains(msg, "io.cncf.notary.verificationPlugin from extended attribute is an empty string"):
+		return "EEmpty"
+	case strings.Contains(msg, "error while locating the verification plugin"):
+		switch {
+		case strings.Contains(msg, "invalid plugin name"):
+			return "EInvalid"
+		case strings.Contains(msg, "no such file or directory"):
+			return "ENotExist"
+		}
+		return "EOther"
+	case strings.Contains(msg, "io.cncf.notary.verificationPlugin is not a critical Extended attribute"),
+		strings.Contains(msg, "io.cncf.notary.verificationPlugin from extended attribute is not a string"),
+		strings.Contains(msg, "error while getting plugin minimum version"),
+		strings.Contains(msg, "plugin unsupported due to nil verifier.pluginManager"):
+		return "EOther"
+	}
+	return "ENone"
+}
+
+// envelopeX signs an envelope with the given extended attributes and reports the shape of
+// the verificationPlugin attribute as notation-core-go reads it back.
+func (k *verifyKit) envelopeX(format string, attrs []signature.Attribute) (env []byte, shape, seen string, ok bool) {
+	env, err := SignEnvelope(EnvSpec{Format: format, Chain: k.chain, Payload: PayloadFor(k.desc), Scheme: signature.SigningSchemeX509, ExtAttrs: attrs})
+	if err != nil {
+		return nil, "", "", false
+	}
+	content, err := CoreVerify(format, env)
+	if err != nil {
+		return nil, "", "", false
+	}
+	at, err := content.SignerInfo.ExtendedAttribute("io.cncf.notary.verificationPlugin")
+	if err != nil {
+		return env, "VAbsent", "", true
+	}
+	str, isStr := at.Value.(string)
+	switch {
+	case !at.Critical:
+		return env, "VNotCritical", str, true
+	case !isStr:
+		return env, "VNotString", "", true
+	}
+	return env, "VStr", str, true
 }
 
 func newVerifyKit() *verifyKit {
@@ -1360,6 +1493,10 @@ func newVerifyKit() *verifyKit {
 	k.store = NewMockStore()
 	k.store.Put(truststore.TypeCA, "s", k.chain[len(k.chain)-1].C)
 	k.policy = OCIPolicy("strict", nil, []string{"ca:s"}, []string{"*"}, "")
+	// a policy whose trust store holds another root: the signing chain is not trusted
+	other := NewChain("c16-other", 2, now.Add(-48*time.Hour), now.Add(48*time.Hour))
+	k.store.Put(truststore.TypeCA, "u", other[len(other)-1].C)
+	k.policyU = OCIPolicy("strict", nil, []string{"ca:u"}, []string{"*"}, "")
 	return k
 }
 
